@@ -136,3 +136,33 @@ Definition final_stats (C : cfg) (duration : Q) (s : sim) : stats :=
      st_query := pipeline_stats tps (arrivals_of C s Query) (lat_of s Query);
      st_interactive := pipeline_stats tps (arrivals_of C s Interactive) (lat_of s Interactive);
      st_batch := pipeline_stats tps (arrivals_of C s Batch) (lat_of s Batch) |}.
+
+(* ---- the entry point: what run_simulator does around the loop ---- *)
+
+(* init_priority_pool_scheduler (scheduler/priority_pool.py:20) asserts `s.executor.num_pools == 2` when the
+   scheduler object is built, before the first tick; the other schedulers accept every pool count *)
+Definition pool_count_ok (a : algo) (np : nat) : bool :=
+  match a with APriorityPool => Nat.eqb np 2 | _ => true end.
+
+(* simulator.py:364-370: at the end of every tick with tick_number % ticks_per_second == 0 (tick 0 is one)
+   the loop evaluates 100.0 * allocated_ram / total_ram with total_ram = num_pools * ram_gb_per_pool
+   (executor.py:57): ZeroDivisionError iff there is no pool or the pools have no RAM *)
+Definition total_ram_zero (np : nat) (ram : Q) : bool := Nat.eqb np 0 || Qeqb ram 0%Q.
+
+(* run_simulator from the construction of the scheduler to the end of the loop. The answer has the shape of
+   [sim_run]'s: (state reached, logs of the completed ticks, error). With total RAM zero the first tick is
+   simulated (an error raised inside it comes first), then the utilisation statement raises. *)
+Definition sim_main (C : cfg) (a : algo) (np : nat) (cpu : Z) (ram : Q) (arrivals : list (list nat))
+  : sim * list tick_log * option err :=
+  let s0 := init_sim C np cpu ram in
+  if negb (pool_count_ok a np) then (s0, [], Some ESchedAssert)
+  else if total_ram_zero np ram then
+    match arrivals with
+    | [] => (s0, [], None)
+    | newp :: _ =>
+        match sim_tick C a 0%Z s0 newp with
+        | Err e => (s0, [], Some e)
+        | Ok (s1, lg) => (s1, [lg], Some EOther)
+        end
+    end
+  else sim_run C a 0%Z s0 arrivals.
